@@ -27,6 +27,14 @@ def gen_cases(ctx, n):
     ]
     for c in fixed:
         yield c
+    # files in which every violation is suppressed by construction (each line names all codes that can fire on it)
+    sup_lines = ["SELECT a  FROM t WHERE ( -- noqa: LT01,PRS\n", "SELECT a  FROM t WHERE ( -- noqa: PRS,LT01\n", "SELECT a  ,b FROM t -- noqa: LT01,AM06,PRS\n",
+                 "SELECT a  FROM t WHERE ( -- noqa: layout.spacing,PRS\n", "SELECT a  FROM t WHERE ( -- noqa: L*,PRS\n", "SELECT a  FROM t WHERE ( -- noqa\n",
+                 "SELECT a, b FROM t GROUP BY a, 2 -- noqa: AM06, LT01\n"]
+    for l in sup_lines:
+        yield dict(sql=l, warnings=None, ignore=None, fix_even=False, templater="raw", all_suppressed=True)
+    yield dict(sql="-- noqa: disable=LT01,PRS\nSELECT a  FROM t WHERE (\n", warnings=None, ignore=None, fix_even=False, templater="raw", all_suppressed=True)
+    yield dict(sql="SELECT {{ undefined_x }}  FROM t -- noqa: LT01,TMP,PRS\n", warnings=None, ignore=None, fix_even=False, templater="jinja", all_suppressed=True)
     for _ in range(n):
         templ = "jinja" if rng.random() < 0.35 else "raw"
         lines = []
